@@ -345,7 +345,9 @@ class Grammar:
             for prod in prods:
                 weights[prod] += learning_rate * extra_weights[prod]
                 total_weights += weights[prod]
-            if total_weights > 0:
+            # Weights that already add up to one (up to rounding) are left alone, so that extracting
+            # the grammar again from the same classes does not make them drift by an ulp each time.
+            if total_weights > 0 and abs(total_weights - 1.0) > 1e-12:
                 for prod in prods:
                     weights[prod] = weights[prod] / total_weights
 
@@ -468,5 +470,5 @@ def extract_grammar(
     g.register_type(starting_symbol)
     g.preprocess()
     if any(["weight" in get_gengy(p) for p in [*considered_subtypes, *g.all_nodes]]):
-        g.update_weights(1, g.get_weights())
+        g.update_weights(0, g.get_weights())  # normalise only: adding the weights to themselves first made them drift
     return g
